@@ -2,6 +2,7 @@
    Model-side exceptions are printed as (driver-error "...") so that a line count mismatch can
    never hide a case. *)
 let () =
+  All_ops.init ();
   let b = Buffer.create 4096 in
   (try
      while true do
